@@ -19,8 +19,8 @@ EXTRACT = ["C12"]
 BINS = ["c12"]
 NEEDS_CICADA = True
 ALLOWED_AXIOMS = []
-PINNED = ["C12_brace", "C12_order", "C12_range", "C12_home", "C12_glob", "C12_full", "C12_refuted",
-          "C12_refuted_affixes", "C12_refuted_overflow", "C12_refuted_single_alternative"]
+PINNED = ["C12_brace", "C12_brace_any_group", "C12_order", "C12_range", "C12_range_total", "C12_home", "C12_glob",
+          "C12_full", "C12_refuted", "C12_refuted_affixes"]
 TRUSTED = [
     "Coq 8.16.1 kernel (coqc; coqchk in thorough); vm_compute only in concrete witnesses / non-vacuity examples",
     "hand transcription of need_expand_brace / brace_getitem / brace_getgroup / expand_brace / expand_brace_range / "
@@ -32,9 +32,10 @@ TRUSTED = [
     "extraction: ExtrOcamlBasic only; OCaml 4.13.1; ocaml/c12/drv.ml; harness/src/expand_ops.rs; drive/c12.py",
 ]
 ASSUMES = [
-    "C12_brace: well-formed terms (plain characters are not { } , backslash; every group has >= 2 alternatives)",
-    "C12_range: operands are i32 and the end operand is at least one step inside the i32 bounds; stated for "
-    "range_list (the loop), the token-level parsing of the operands is covered by correspondence only",
+    "C12_brace / C12_brace_any_group: well-formed terms (plain characters are not { } , backslash); a group with a "
+    "single alternative keeps its braces",
+    "C12_range: all i32 operands; stated for range_list (the loop), the token-level parsing of the operands is "
+    "covered by correspondence only",
     "C12_order: the pass does not take its early return (range operand that does not parse, glob pattern error)",
 ]
 
@@ -50,7 +51,8 @@ def gen_term(rng, depth, top=True):
     ngroups = 0
     for _ in range(rng.randint(0, 4 if top else 2)):
         if depth > 0 and ngroups < 3 and rng.random() < 0.4:
-            alts = [gen_term(rng, depth - 1, False) if rng.random() < 0.85 else [] for _ in range(rng.randint(2, 4))]
+            alts = [gen_term(rng, depth - 1, False) if rng.random() < 0.85 else []
+                    for _ in range(1 if rng.random() < 0.12 else rng.randint(2, 4))]
             items.append(alts)
             ngroups += 1
         else:
@@ -69,6 +71,8 @@ def den(t):
             out = [o + x for o in out]
         else:
             alts = [w for a in x for w in den(a)]
+            if len(x) == 1:
+                alts = ["{" + w + "}" for w in alts]   # a group with one alternative is not an expansion
             out = [o + w for o in out for w in alts]
     return out
 
@@ -79,6 +83,10 @@ def count_den(t):
         if not isinstance(x, str):
             n *= sum(count_den(a) for a in x)
     return n
+
+
+def all_multi(t):
+    return all(isinstance(x, str) or (len(x) >= 2 and all(all_multi(a) for a in x)) for x in t)
 
 
 def has_group(t):
@@ -139,6 +147,11 @@ def toks_line(toks):
 
 def retag(s):
     return ('"' if " " in s else "", s)
+
+
+def gen(ctx=None):
+    """regenerates Gen/ShellRegexes.v from the regex literals of the current source (write-if-changed)"""
+    X.gen(ctx)
 
 
 def run(ctx, res):
@@ -215,16 +228,18 @@ def run(ctx, res):
     for t in terms:
         lb.append(C.case("term", render(t)))
         lb.append(C.case("bgi", render(t), "0"))
+        lb.append(C.case("eb", X.toks_field([("", "x"), ("", render(t)), ("'", render(t))])))
     pb = C.write_cases("c12_b.txt", lb)
     mb = C.run_model(ctx.model["C12"], pb)
     ib = C.run_impl(ctx.bins["c12"], pb, len(lb), timeout=600)
     res.count("L1b_grammar_terms", len(terms))
     for k, t in enumerate(terms):
         exp = den(t)
-        mterm, mbgi, ibgi = mb[2 * k], mb[2 * k + 1], ib[2 * k + 1]
+        mterm, mbgi, ibgi = mb[3 * k], mb[3 * k + 1], ib[3 * k + 1]
+        meb, ieb = mb[3 * k + 2], ib[3 * k + 2]
         want_term = '"%s" %s wf=T' % (C.enc(render(t)), qlist(exp))
         want_bgi = "(%s,%s)" % (qlist(exp), '""')
-        if mterm != want_term:
+        if all_multi(t) and mterm != want_term:
             violate(kind="oracle-self-check", input=render(t), model=mterm, python=want_term, failing_input=False,
                     note="extracted den_term / wf_term and the driver's product disagree")
         if ibgi != want_bgi:
@@ -233,6 +248,15 @@ def run(ctx, res):
         elif mbgi != ibgi:
             violate(kind="correspondence", layer="L1b", input=render(t), model=mbgi, impl=ibgi, failing_input=False,
                     note="model and implementation disagree on a well-formed term")
+        # through the gate (need_expand_brace) and the token replacement: every term has a group with a comma
+        want_eb = toks_line([("", "x")] + [retag(w) for w in exp] + [("'", render(t))])
+        if all_multi(t) or "," in render(t):
+            if ieb != want_eb:
+                violate(kind="oracle", layer="L1b", input=render(t), expected=want_eb, observed=ieb, model=meb,
+                        failing_input=True, note="expand_brace on a line: the word is not replaced by the product, in place")
+            elif meb != ieb:
+                violate(kind="correspondence", layer="L1b", input=render(t), model=meb, impl=ieb, failing_input=False,
+                        note="model and implementation disagree on expand_brace")
         res.nontrivial("b:" + render(t))
     res.sample({"layer": "L1b", "input": render(terms[0]), "reference": den(terms[0]), "impl": ib[1], "model": mb[1]})
     # single-alternative group: recorded finding
@@ -320,6 +344,10 @@ def run(ctx, res):
     idd = C.run_impl(ctx.bins["c12"], pd, len(ld), shards=1)
     res.count("L1d_tilde", len(ld))
     for h, a, b in zip(homes, md, idd):
+        if a != b and "$" in h and "home_is_a_template" in known and b == toks_line(
+                [(t, (h + x[1:]) if (t == "" and x.startswith("~")) else x) for t, x in htoks]):
+            res.extra.setdefault("findings_no_longer_reproducing", []).append("home_is_a_template")
+            continue
         if a != b:
             violate(kind="correspondence", layer="L1d", input=h, model=a, impl=b, failing_input=False,
                     note="expand_home of the implementation differs from the model")
@@ -334,17 +362,23 @@ def run(ctx, res):
     # ------------------------------------------------------------ L1e glob, L1f do_expansion, L2
     work = tempfile.mkdtemp(prefix="c12_")
     try:
-        pops = [["a.txt", "b.txt", ".hid.txt", "c d.txt", "sub/x.txt", "sub/.h", "sub/y z", "zz"],
-                [".only"], [], ["*star", "q[1]", "A", "a", "B", "b", "é.txt", "sub/deep/f.txt"]]
+        pops = [["a.txt", "b.txt", ".hid.txt", "c d.txt", "sub/x.txt", "sub/.h", "sub/y z", "zz", ".bashrc", ".vimrc",
+                 ".hdir/in.txt", ".hdir/.hin", ".hdir/two words"],
+                [".only"], [], ["*star", "q[1]", "A", "a", "B", "b", "é.txt", "sub/deep/f.txt", ".dot", "sub/.s", "sub/t"]]
         pats = ["*", "*.txt", ".*", ".*.txt", "sub/*", "*/x.txt", "no*match", "a*", "*z", "sub/.*", "c*", "* ", "**", "*/*",
-                "[*", "q[1]*", "'*'", "\\*", "x*x", "*/*/*", "/nonexistent/*", "../*star*"]
+                "[*", "q[1]*", "'*'", "\\*", "x*x", "*/*/*", "/nonexistent/*", "../*star*",
+                # directory part starting with a dot / containing "/." against populations with hidden entries
+                "./*", "./*.txt", "./.*", ".*rc", "./sub/*", "../pop0/*", "../pop0/*.txt", "../pop0/sub/*", "../pop3/sub/*",
+                ".hdir/*", ".hdir/.*", "./.hdir/*", "*/.*", "./no*match", "../pop1/*", "./*/*", "sub/../*.txt"]
         le, emeta = [], []
-        for pi, pop in enumerate(pops):
+        for pi, pop in enumerate(pops):       # all populations first: patterns reach into sibling directories
             d = os.path.join(work, "pop%d" % pi)
             os.makedirs(d)
             for n in pop:
                 os.makedirs(os.path.dirname(os.path.join(d, n)), exist_ok=True)
                 open(os.path.join(d, n), "w").close()
+        for pi, pop in enumerate(pops):
+            d = os.path.join(work, "pop%d" % pi)
             raw_cases = [C.case("globraw", "D\x1d" + d, p) for p in pats]
             pr = C.write_cases("c12_raw.txt", raw_cases)
             raw = C.run_impl(ctx.bins["c12"], pr, len(raw_cases), shards=1)
@@ -369,6 +403,13 @@ def run(ctx, res):
                 emeta.append((d, None, toks, None))
             # do_expansion: pass order on one line
             wdx = wf + "\x1eH\x1d/home/u\x1eSA\x1d{p,q}\x1eSB\x1dv w"
+            # pass order glob -> command substitution: an output holding a star is NOT expanded into file names
+            starf = os.path.join(work, "subst_output.txt")
+            open(starf, "w").write("*\n")
+            scmd = "%s %s" % (os.path.join(ctx.helpers, "csub"), starf)
+            wdx += "\x1eR" + scmd + "\x1d*\n"
+            le.append(C.case("dx", wdx, "30", X.toks_field([("", "echo"), ("", "*.txt"), ("", "$(%s)" % scmd), ('"', "*")])))
+            emeta.append((d, None, [("", "echo"), ("", "*.txt"), ("", "$(%s)" % scmd), ('"', "*")], "dxstar"))
             for toks in [[("", "echo"), ("", "~/x"), ("", "$B"), ("", "{a,b}$B"), ("", "*.txt"), ("", "{1..3}"), ("'", "{a,b}*~$B")],
                          [("", "echo"), ("", "$A"), ("", "x{1..2}"), ('"', "~ $B {a,b} *")],
                          [("", "1"), ("", "+"), ("", "{1,2}")], [("", "export"), ("", "PROMPT=$B{a,b}")]]:
@@ -376,31 +417,56 @@ def run(ctx, res):
                 emeta.append((d, None, toks, "dx"))
         pe = C.write_cases("c12_e.txt", le)
         me = C.run_model(ctx.model["C12"], pe)
-        ie = X.run_impl_filtered(ctx.bins["c12"], pe, len(le))
+        ie = C.run_impl(ctx.bins["c12"], pe, len(le), shards=1)
         res.count("L1e_glob_L1f_do_expansion", len(le))
         for (d, p, toks, tbl), a, b in zip(emeta, me, ie):
-            if tbl == "dx":
+            if tbl in ("dx", "dxstar"):
                 b = b.split("\t", 1)[1] if b.startswith("pid=") else b
                 a = a.split(" calls=")[0]
-            if a != b:
-                violate(kind="correspondence", layer="L1e", dir=d, input=toks_line(toks), model=a, impl=b,
-                        failing_input=False, note="expand_glob / do_expansion of the implementation differs from the model")
-                continue
+            if tbl == "dxstar":
+                got = parse_toks(b)
+                if len(got) < 2 or got[-2] != ("", "*") or got[-1] != ('"', "*"):
+                    violate(kind="oracle", layer="L1f", dir=d, directory_entries=sorted(pops[int(os.path.basename(d)[3:])]),
+                            input=toks_line(toks), expected="... the untagged token * (the output) and the quoted *",
+                            observed=b, model=a, failing_input=True,
+                            note="the output of a command substitution was expanded into file names (pass order)")
+                    continue
+            differs = a != b
             if p is None or p in ("'*'", "\\*") or tbl is None:
+                if differs:
+                    violate(kind="correspondence", layer="L1e", dir=d, input=toks_line(toks), model=a, impl=b,
+                            failing_input=False, note="expand_glob / do_expansion of the implementation differs from the model")
                 continue
             # property oracle: Python's glob (sorted, hidden skipped unless the last component starts with a dot)
             cwd = os.getcwd()
             os.chdir(d)
             try:
-                pg = sorted(x for x in pyglob.glob(p) if os.path.basename(x.rstrip("/")) not in (".", ".."))
+                pg = [x for x in pyglob.glob(p) if os.path.basename(x.rstrip("/")) not in (".", "..")]
             finally:
                 os.chdir(cwd)
+            if p.startswith("./"):      # the glob crate yields paths without the leading ./
+                pg = [x[2:] if x.startswith("./") else x for x in pg]
+            pg = sorted(pg)
             if not pg:
                 pg = [p]
             exp = toks_line([toks[0]] + [retag(x) for x in pg] + toks[2:])
             res.nontrivial("e:%s:%s" % (os.path.basename(d), p))
+            if differs and (b == exp or "[" in p or "**" in p):
+                violate(kind="correspondence", layer="L1e", dir=d, input=toks_line(toks), model=a, impl=b,
+                        failing_input=False, note="expand_glob of the implementation differs from the model")
+                continue
             if b != exp and "[" not in p and "**" not in p:
-                violate(kind="oracle", layer="L1e", dir=d, input=p, expected=exp, observed=b, failing_input=True,
+                got_paths = [x for _, x in parse_toks(b)][1:-2]
+                extra = [x for x in got_paths if x not in pg]
+                hidden_dir = lambda x: any(c.startswith(".") and c not in (".", "..") for c in x.split("/")[:-1])
+                if a == b and extra and all(hidden_dir(x) for x in extra) and [x for x in got_paths if x in pg] == pg:
+                    # recorded: a * component of the pattern matched a hidden DIRECTORY (only the last component is filtered)
+                    known_or_violate("hidden_directory_component", True, kind="oracle", layer="L1e", dir=d, input=p,
+                                     expected=exp, observed=b, failing_input=True,
+                                     note="entries below a hidden directory are listed for a pattern whose directory part is a *")
+                    continue
+                violate(kind="oracle", layer="L1e", dir=d, directory_entries=sorted(pops[int(os.path.basename(d)[3:])]),
+                        input=p, expected=exp, observed=b, model=a, failing_input=True,
                         note="filename expansion is not the sorted list of matching non-hidden paths")
         # ------------------------------------------------------------ L2
         hp = os.path.join(ctx.helpers, "hp")
@@ -409,11 +475,15 @@ def run(ctx, res):
               ("x{a,{b,c}d,}y", ["xay", "xbdy", "xcdy", "xy"], None), ("{1..4}", ["1", "2", "3", "4"], None),
               ("{10..4..3}", ["10", "7", "4"], None), ("*.txt", ["a.txt", "b.txt", "c d.txt"], None),
               ("sub/*", ["sub/x.txt", "sub/y z"], None), ("no*match", ["no*match"], None), ("~", [d0], None),
+              ("./*.txt", ["a.txt", "b.txt", "c d.txt"], None), ("../pop0/sub/*", ["../pop0/sub/x.txt", "../pop0/sub/y z"], None),
+              (".hdir/*", [".hdir/in.txt", ".hdir/two words"], None), (".*rc", [".bashrc", ".vimrc"], None),
+              ("pre ./sub/* 'q*' post", ["pre", "sub/x.txt", "sub/y z", "q*", "post"], None),
               ("~/q", [d0 + "/q"], None), ("'{a,b}' \"*.txt\" '~'", ["{a,b}", "*.txt", "~"], None),
               ("k {a,b} *.txt {1..2} m", ["k", "a", "b", "a.txt", "b.txt", "c d.txt", "1", "2", "m"], None),
               ("a{1..3}b", ["a1b", "a2b", "a3b"], "range_affixes_dropped"),
-              ("{a}{b,c}", ["{a}b", "{a}c"], "single_alternative_group"),
-              ("{2147483646..2147483647}", ["2147483646", "2147483647"], "range_i32_overflow")]
+              ("{a}{b,c}", ["{a}b", "{a}c"], None), ("x{a}y", ["x{a}y"], None),
+              ("{2147483646..2147483647}", ["2147483646", "2147483647"], None),
+              ("{-2147483647..-2147483648}", ["-2147483647", "-2147483648"], None)]
 
         def one(job):
             line = "%s @o %s" % (hp, job[0])
